@@ -415,7 +415,6 @@ def r18_2(ctx):
             f"each binding must get conditions.And(its own condition, the new "
             f"condition); found conditions.{kind}({', '.join(cargs)})", facts)
   # every binding, unconditionally, and the result is what is returned
-  repl = mod.parent[mod.parent.get(call)] if isinstance(mod.parent.get(call), ast.keyword) else None
   new_b = None
   for c in calls_in(fn):
     if (dotted(c.func) or "").endswith("replace") and c.args and src(c.args[0]) == b:
@@ -938,8 +937,6 @@ def r18_5(ctx):
                   f"{field}: the two states would share one mutable container, "
                   "so store_local on either changes the other",
                   {"argument": src(bargs[field]), "kind": k})
-  for rel_fn in mod.methods("BlockState").values():
-    pass
   others = [c for c in calls_in(mod.tree)
             if (dotted(c.func) or "").split(".")[-1] == "BlockState"]
   if len(others) != n_calls:
@@ -1278,7 +1275,7 @@ VARIANTS = [
      "new": "        var.with_condition(other._condition)"},
     {"name": "merge-other-side-never-conditioned", "rule": "R18.3", "file": ST, "expect": "fire",
      "old": "        var = var.with_condition(other._condition)", "new": "        pass"},
-    {"name": "twin-merge-comments-and-blank-lines", "rule": "R18.3", "file": ST, "expect": "silent",
+    {"name": "twin-condition-through-a-local", "rule": "R18.3", "file": ST, "expect": "silent",
      "old": "        var = var.with_condition(other._condition)",
      "new": "        own = other._condition\n        var = var.with_condition(own)"},
     # R18.4
